@@ -77,6 +77,13 @@ SCHEMA = pipeline_schema()
 
 def well_formed(result) -> bool:
     """Response format: data/errors shapes as the spec's Response section prescribes."""
+    try:
+        return _well_formed(result)
+    except Exception:
+        return False  # e.g. formatting the result fails because a raw exception sits in errors
+
+
+def _well_formed(result) -> bool:
     if not isinstance(result, ExecutionResult):
         return False
     f = result.formatted
